@@ -287,3 +287,28 @@ CLAIMS["C02"] = {
 }
 H("C02", "html/layout", "VxH_C02_blocks", mode="real", reach=["laid-out"], bounds="5 sibling blocks with heights in [10,90] on 100px pages; the second optionally floated; break-after auto/avoid on the third and fourth", quick={"maxsteps": 100000000, "time": "500s", "shards": 8})
 H("C02", "html/layout", "VxH_C02_table_row", mode="real", reach=["laid-out"], bounds="one table row with two cells holding 2 and 4 blocks of heights in [10,60] on 100px pages", quick={"maxsteps": 100000000, "time": "500s", "shards": 8})
+
+# ---- C11 lines (alignment arithmetic only) ----
+ASSUMPTIONS["C11"] = [
+    "only the placement arithmetic of text-align is covered, for a line of symbolic width in a symbolic available width; line breaking, trailing-space handling, line heights and text-indent run through the text shaping engines (pango / go-text on font files), which this technique cannot encode: they are not covered",
+]
+CLAIMS["C11"] = {
+    "text": "For fully symbolic line and available widths and every combination of text-align, text-align-last, direction and last-line flag the solver shows the offset computed by textAlign is the start / end / centre placement CSS Text defines and keeps the content inside the available width. Greedy breaking and line stacking are NOT claimed.",
+    "design_ref": "DESIGN.md section 4 C11",
+    "note": "Trusted: symgo, z3 nlsat. Covers one anchored mechanism of the property only.",
+}
+H("C11", "html/layout", "VxH_C11_align", mode="real", reach=["aligned"], bounds="line width and available width symbolic >= 0; text-align in {start,end,left,right,center}, text-align-last in {auto,...}, ltr/rtl, last-line flag")
+
+# ---- C01 termination / no crash (guard mechanisms) ----
+ASSUMPTIONS["C01"] = [
+    "the whole-document statement (all HTML x CSS x fonts x text engines) is out of reach; the claim covers the anchored guard mechanisms: root element discovery, var() resolution, bookmark outline, counter-style cycles, content quotes, and the no-panic obligation carried by every other harness of this suite (tokenizer, validators, selectors, tables, block layout on text-free documents)",
+]
+CLAIMS["C01"] = {
+    "text": "Each guard mechanism is executed symbolically on its bounded input family and shown to return without panic; paths that exhaust the step/depth budget are replayed natively under a watchdog and reported as non-termination when the real code does not return either.",
+    "design_ref": "DESIGN.md section 4 C01",
+    "note": "Trusted: symgo, z3. Page-loop progress with real text, drawing and image decoding are not covered.",
+}
+H("C01", "html/tree", "VxH_C01_root", reach=["parsed"], bounds="documents starting with up to three pieces among {nothing, doctype, comment}, 3 body spellings, optional trailing comment")
+H("C01", "html/tree", "VxH_C08_var", reach=["computed"], divergence=True, bounds="var() graphs, see C08", quick={"maxdepth": 250})
+H("C01", "html/document", "VxH_C14_outline", reach=["built"], bounds="bookmark outline, see C14")
+H("C01", "css/counters", "VxH_C19_cycles", reach=["terminated"], divergence=True, bounds="counter style extends / fallback graphs, see C19")
